@@ -26,7 +26,7 @@ var servers []*oracle.Server
 
 func TestMain(m *testing.M) {
 	kf, _ = known.Load(ev.KnownFile())
-	rec.Rule("(requirement, candidate pool) per ecosystem: requirements from the ecosystem's range grammar, candidates derived from the requirement's own bounds (each literal, ±1 neighbours, prerelease/build variants) plus random versions; oracle = node-semver satisfies (7.x and 5.7.1, asserted where they agree), Rust VersionReq::matches, packaging SpecifierSet.contains (26.x and 21.3, asserted where they agree), Maven VersionRange.containsVersion; observed through Constraint.Match, MatchVersion and resolve.MatchRequirement; a requirement the reference accepts and shows non-empty on the pool must parse. One evaluation = one (requirement, candidate). Non-trivial: the requirement has >= 2 comparators or a desugaring operator, and the candidate is a bound or neighbour of a bound. Distinct = distinct (ecosystem, requirement, candidate).")
+	rec.Rule("(requirement, candidate pool) per ecosystem: requirements from the ecosystem's range grammar, candidates derived from the requirement's own bounds (each literal, ±1 neighbours, prerelease/build variants) plus random versions; oracle = node-semver satisfies (7.x and 5.7.1, asserted where they agree), Rust VersionReq::matches, packaging SpecifierSet.contains (26.x and 21.3, asserted where they agree), Maven VersionRange.containsVersion; observed through Constraint.Match, MatchVersion and resolve.MatchRequirement; a requirement the reference accepts and shows non-empty on the pool must parse. One evaluation = one (requirement, candidate). Non-trivial: the requirement has >= 2 comparators or a desugaring operator, and the candidate is a bound or neighbour of a bound. Distinct = distinct (ecosystem, requirement, candidate). Operands include the literal 0.0.0-0, short-form prereleases, a number after a wildcard, build metadata containing x, and for PyPI upper-case and underscore spellings; three quick shards.")
 	rec.Assume("PyPI candidates are final releases with a non-zero release segment; PyPI requirements carry no epoch/local; Maven candidates are >= 0 and use '-'-introduced qualifiers (Maven 3.8.7 skew), as the property and DESIGN §6.4 state")
 	code := m.Run()
 	for _, s := range servers {
